@@ -118,6 +118,15 @@ theorem callClosure_mono {γ} [PartialOrder γ] (f : γ → Rec) (hf : monotone 
     (args : List Val) : monotone (fun x => callClosure (f x) fv args) := by
   unfold callClosure; mono_with hf
 
+theorem fillWith_mono {γ} [PartialOrder γ] (f : γ → Rec) (hf : monotone f) (fv : Val) (i k : Nat) :
+    monotone (fun x => fillWith (f x) fv i k) := by
+  induction k generalizing i with
+  | zero => simp only [fillWith]; mono_with hf
+  | succ k ih =>
+    simp only [fillWith]
+    have h1 := callClosure_mono f hf fv [.int .w64 i]
+    mono_with2 hf ih
+
 theorem evalBase_mono {γ} [PartialOrder γ] (f : γ → Rec) (hf : monotone f) (root : Expr) (env : Env) :
     monotone (fun x => evalBase (f x) root env) := by
   unfold evalBase; mono_with hf
@@ -135,6 +144,7 @@ macro_rules
       | apply callDecl_mono _ $hf
       | apply callMutating_mono _ $hf
       | apply callClosure_mono _ $hf
+      | apply fillWith_mono _ $hf
       | apply evalBase_mono _ $hf
       | apply monotone_bind
       | apply catchLoop_mono
